@@ -337,10 +337,11 @@ class P:
                 pats = [self.pattern()]
                 while self.maybe("|"):
                     pats.append(self.pattern())
+                guard = self.expr(nostruct=True) if self.maybe("if") else None
                 self.eat("=>")
                 body = self.block() if self.at("{") else self.expr()
                 self.maybe(",")
-                arms.append((pats, body))
+                arms.append((pats, body, guard))
             self.eat("}")
             return ("match", scr, arms)
         if v == "{":
@@ -1066,11 +1067,25 @@ class Tr:
                 alts.append(" && ".join(cs) if cs else "true")
             return " || ".join("(%s)" % a for a in alts)
 
+        def guarded(pats, guard):
+            # `pat if guard =>`: the guard is evaluated only when the pattern matches and has no effects here
+            if guard is None:
+                return cond(pats)
+            env2 = dict(env)
+            if len(pats) == 1:
+                for p, m in zip(pats[0], names):
+                    if p not in ("true", "false", "_"):
+                        env2[p] = (m, "bool")
+            g = self.expr(guard, env2, lambda tm, s: tm if s == "bool" else self.err("guard of sort %s" % s))
+            return "(%s) && %s" % (cond(pats), g)
+
         def chain(i):
-            pats, body = arms[i]
+            pats, body, guard = arms[i]
             if i == len(arms) - 1:
+                if guard is not None:
+                    self.err("guard on the last arm")
                 return arm_body(pats, body)
-            return "if %s\n   then %s\n   else %s" % (cond(pats), arm_body(pats, body), chain(i + 1))
+            return "if %s\n   then %s\n   else %s" % (guarded(pats, guard), arm_body(pats, body), chain(i + 1))
         tm = chain(0)
         binds = " ".join("let %s := %s in" % (n, m) for n, m in zip(names, ms))
         return k("(%s\n   %s)" % (binds, tm), sort[0])
